@@ -348,6 +348,9 @@ Lemma step_FMark_unresolved : forall g t th p rh c hk g',
 Proof.
   intros g t th p rh c hk g' I Hth Hpc Hp Hres Hs Hm. unfold step in Hs. rewrite Hth, Hpc, Hp in Hs.
   destruct (h_mu hk) eqn:Hmu; [discriminate|]. rewrite Hres in Hs.
+  destruct (resolves_to_cycle g rh p) eqn:Ecyc.
+  { exfalso. inversion Hs; subst g'. rewrite fmark_body_misuse in Hm. discriminate. reflexivity. }
+  unfold fmark_body in Hs. cbv zeta in Hs.
   pose proof (fm_acct g p hk I Hp Hmu) as Hacct.
   assert (Htok0 : 0 <= tokens g p) by (apply sumf_nonneg; apply wtok_nonneg).
   destruct (inv_hook g (invH g I) p hk Hp) as [O1 O2 O3 O4 O5 O6 O7].
@@ -356,7 +359,7 @@ Proof.
   assert (NC : forall k c0 cur, t_pc th <> CWalk k c0 cur) by (intros; rewrite Hpc; discriminate).
   destruct (h_refs hk =? 0) eqn:En.
   - (* no references left: nothing to transfer, nothing to shut down *)
-    inversion Hs; subst g'; clear Hs.
+    cbv iota in Hs. inversion Hs; subst g'; clear Hs.
     set (g' := finish t ROk (uh p (fun _ => hk1) g)) in *.
     set (F := fun th0 : thread => mkThread (t_prog th0) Idle (ROk :: t_res th0)).
     assert (Ht : threads g' = upd t F (threads g)) by reflexivity.
@@ -384,7 +387,7 @@ Proof.
     assert (Hcl2 : (if h_calls hk1 =? 0 then close_done hk1 else Some hk1) = Some hk2).
     { unfold hk2, close_done. cbn [h_calls h_done hk1 hk_refs hk_resolve]. rewrite Hd.
       destruct (h_calls hk =? 0); reflexivity. }
-    rewrite Hcl2 in Hs.
+    cbv iota in Hs. rewrite Hcl2 in Hs. cbv iota in Hs.
     assert (D2 : h_done hk2 = (h_calls hk =? 0)).
     { unfold hk2. destruct (h_calls hk =? 0); cbn; auto. }
     assert (R2 : h_refs hk2 = 0) by (unfold hk2; destruct (h_calls hk =? 0); reflexivity).
@@ -396,9 +399,9 @@ Proof.
     clearbody hk2.
     destruct rh as [r|].
     + destruct (Nat.eqb r p) eqn:Erp.
-      { inversion Hs; subst g'. cbn in Hm. discriminate. }
+      { cbv iota in Hs. inversion Hs; subst g'. cbn in Hm. discriminate. }
       apply Nat.eqb_neq in Erp.
-      inversion Hs; subst g'; clear Hs.
+      cbv iota in Hs. inversion Hs; subst g'; clear Hs.
       set (hk3 := hk_mu (Some t) hk2) in *.
       set (g' := set_pc t (FWalk p (h_refs hk) c r) (uh p (fun _ => hk3) g)) in *.
       set (F := fun th0 : thread => mkThread (t_prog th0) (FWalk p (h_refs hk) c r) (t_res th0)).
@@ -430,7 +433,7 @@ Proof.
            eapply (borrow_ok_frame g g'); [exact L | intros ci0 cl _ A; exists cl; auto | exact Hbor].
         -- intros p0 rh0 c0 E. discriminate.
     + (* resolved to nil: the references are dropped *)
-      inversion Hs; subst g'; clear Hs.
+      cbv iota in Hs. inversion Hs; subst g'; clear Hs.
       set (g' := set_pc t (WaitDone p) (retarget p None (uh p (fun _ => hk2) g))) in *.
       set (F := fun th0 : thread => mkThread (t_prog th0) (WaitDone p) (t_res th0)).
       assert (Ht : threads g' = upd t F (threads g)) by reflexivity.
